@@ -166,7 +166,7 @@ TIE = {
  "C07": "SMCSampler.determine_beta / current_target_efficiency and the efficiency curve effective_sample_size(log_weights(b))/N",
  "C08": "SMCSamples.log_evidence_ratio, log_evidence_ratio_variance the two statements that sum the recorded series after the loop, and the LOOP of SMCSampler.sample statement by statement (the body of `while True:`, the nested maybe_checkpoint, the `if run_smc_loop:` / break skeleton and the statements after the loop up to the forced checkpoint) over the callee interface Gen.LoopOps (Props/C08LoopTie: the recorded ratio is that of the population before the pass resamples it at the temperature determine_beta returned, is independent of that pass's resample/mutate, of the enlargement and of the checkpoint options, for every callee)",
  "C09": "SMCSamples.log_weights, the statements of SMCSamples.resample that compute the probability vector handed to rng.choice, and (seventh vocabulary, rows2lean.py) the `return self.__class__(x=self.x[idx], ...)` of resample (Props/C09RowsTie: the translated population = C09.resampleRows up to an evidence attached to the old object; src_rows_copied_intact - all four columns are gathered with the SAME index list; src_resampled_beta; src_resampled_size)",
- "C11": "the statements of SMCSampler.sample that decide whether a resumed call re-enters the loop, and the LOOP of SMCSampler.sample statement by statement (the body of `while True:`, the nested maybe_checkpoint, the `if run_smc_loop:` / break skeleton and the statements after the loop up to the forced checkpoint) over the callee interface Gen.LoopOps (Props/C11LoopTie: the loop and the statements after it read nothing but the five values a checkpoint payload is built from, so a call restarted from them records the same history, evidence and new payloads, for every callee); and the checkpoint STATE DICTIONARY: Sampler.build_checkpoint_state, SMCSampler.build_checkpoint_state, _checkpoint_extra_state and both restore_from_checkpoint, key by key, over a heap of history objects in which copy.deepcopy allocates (Props/C11StateTie: the history a checkpoint holds is frozen whatever the run appends later, restore . build is the identity on what the loop reads, a live dictionary is untouched by the resumed run and restores the same a second time, bytes / path / dictionary are interchangeable, build = Model.snapshot and restore = Model.restore); and the PROLOGUE of SMCSampler.sample, statement by statement (twelfth vocabulary, harness/translate/entry2lean.py; Props/C11EntryTie: a fresh call starts from the initial draw at temperature 0 with a new history and the minimum step of its own options, nothing an earlier call left on the object enters it, a resumed call starts from exactly what restore_from_checkpoint hands back without appending the restored population again; fresh entry = Model.initSt, resumed entry = Model.restore)",
+ "C11": "the statements of SMCSampler.sample that decide whether a resumed call re-enters the loop, and the LOOP of SMCSampler.sample statement by statement (the body of `while True:`, the nested maybe_checkpoint, the `if run_smc_loop:` / break skeleton and the statements after the loop up to the forced checkpoint) over the callee interface Gen.LoopOps (Props/C11LoopTie: the loop and the statements after it read nothing but the five values a checkpoint payload is built from, so a call restarted from them records the same history, evidence and new payloads, for every callee); and the checkpoint STATE DICTIONARY: Sampler.build_checkpoint_state, SMCSampler.build_checkpoint_state, _checkpoint_extra_state and both restore_from_checkpoint, key by key, over a heap of history objects in which copy.deepcopy allocates (Props/C11StateTie: the history a checkpoint holds is frozen whatever the run appends later, restore . build is the identity on what the loop reads, a live dictionary is untouched by the resumed run and restores the same a second time, bytes / path / dictionary are interchangeable, build = Model.snapshot and restore = Model.restore); and the PROLOGUE of SMCSampler.sample, statement by statement (twelfth vocabulary, harness/translate/entry2lean.py; Props/C11EntryTie: a fresh call starts from the initial draw at temperature 0 with a new history and the minimum step of its own options, nothing an earlier call left on the object enters it, a resumed call starts from exactly what restore_from_checkpoint hands back without appending the restored population again; fresh entry = Model.initSt, resumed entry = Model.restore; Props/C11ChainTie.src_resume_chain composes translated build -> restore -> prologue into Model.restore (Model.snapshot st))",
  "C12": "the cadence rule inside maybe_checkpoint of SMCSampler.sample and utils.dump_pickle_to_hdf (create / resize / overwrite of the checkpoint dataset, in a dataset vocabulary), and the LOOP of SMCSampler.sample statement by statement (the body of `while True:`, the nested maybe_checkpoint, the `if run_smc_loop:` / break skeleton and the statements after the loop up to the forced checkpoint) over the callee interface Gen.LoopOps (Props/C12LoopTie: src_cadence - the payloads handed to the callback are built at iterations e, 2e, ... and once at the end, the last one from the returned population, evidence, counter, temperature, minimum step and history); and the checkpoint state dictionary (Props/C12StateTie: the payload holds the arguments it was built from and the history of that moment, and a file holding its pickled bytes restores to that moment on a new sampler object whatever the run did afterwards)",
  "C13": "the nested _save_flattened of utils.recursively_save_to_h5_file (the items loop, the dotted key, the `isinstance(value, dict) and value` test, the dataset creation with encode_for_hdf5) and the loop of utils.load_from_h5_file (split at the dots, the setdefault walk, the decoded assignment) (eighth vocabulary, harness/translate/codec2lean.py over Model/Codec) (Props/C13Tie: tie_save_flattened / tie_load_flattened by mutual structural recursion; src_codec_roundtrip_any_order and src_codec_roundtrip_same_order restate the round-trip theorems for the translated functions); and the file layout of the diagnostic history, SMCHistory.save / load (eleventh vocabulary, harness/translate/hist2lean.py: the counter key, the group path of every population, the codec call; Props/C13HistTie: src_history_roundtrip - for any number of stored populations, any well-formed attributes, any file and path, load . save gives back the same populations in order and the same attributes, through exactly the facts a layout change breaks)",
  "C15": "the seven conversion methods of the sample containers (to_numpy / to_namespace of BaseSamples, Samples, SMCSamples; the classmethod from_samples), the constructor's __post_init__ and the method resolution of the three classes, as constructor plans over the finite dtype model (Props/C15Tie: running the translated plan of the method a class resolves to gives the namespace and width of Model.convert or the same error on the WHOLE table of 1458 requests - decide +kernel, lifted by membership -, and whenever it succeeds every per-row field is built from its own field and ends in the namespace and at the width of the coordinates, with the set-level values of the class carried)",
